@@ -1,6 +1,5 @@
 import AldorVerif.Model.LibHdr
-import AldorVerif.Model.Archive
-/-! line protocol for the `libhdr` and `archive` modules (driver side; not part of the model) -/
+/-! line protocol for the `libhdr` module (driver side; not part of the model) -/
 namespace AldorVerif.Driver.LibHdr
 open AldorVerif.LibHdr
 
@@ -21,7 +20,7 @@ def hexOf (l : List Nat) : String := String.join (l.map hex2)
 
 def showVerdict : Verdict → String
   | .ok => "ok" | .badMagic => "badMagic" | .badVersion => "badVersion" | .badNumSect => "badNumSect"
-  | .badSectName => "badSectName" | .bugIndex => "bugIndex" | .badSectHdr => "badSectHdr"
+  | .badSectName => "badSectName" | .dupSect => "dupSect" | .badSectHdr => "badSectHdr"
 
 def showHdr (h : Hdr) : String :=
   "hdr " ++ toString h.magic ++ " " ++ toString h.verMajor ++ " " ++ toString h.verMinor ++ " " ++ toString h.numSect
@@ -32,12 +31,17 @@ def showHdr (h : Hdr) : String :=
 /-- what `drv_strAlloc` leaves in a fresh string: s[0] = 0, then the junk byte -/
 def junkOf (j : Nat) (n : Nat) : List Nat := 0 :: List.replicate n (j % 256)
 
+def showRefusal : Refusal → String
+  | .shortRead => "badSectHdr"          -- the diagnostic libBadFile is given for a short header read
+  | .verdict v => showVerdict v
+  | .outOfBounds => "badOffset"
+
 def showSect (file : List Nat) (h : Hdr) (name j : Nat) : String × String :=
   if hasSection h name && decide (sectLength h name > 65536) then ("toolarge", "big")
   else match getSection file h name (junkOf j (sectLength h name)) with
-    | none => ("none", "absent")
-    | some r => ("want=" ++ toString r.want ++ " data=" ++ hexOf r.data,
-                 if r.got < r.want then "short" else "exact")
+    | none => ("fatal badOffset", "shortsection")
+    | some none => ("none", "absent")
+    | some (some r) => ("want=" ++ toString r.want ++ " data=" ++ hexOf r.data, "exact")
 
 def showClass : TruncClass → String
   | .header => "header" | .table => "table" | .section i => "section:" ++ toString i | .beyond => "beyond"
@@ -51,56 +55,27 @@ def line (toks : List String) : String :=
   | ["G", hx, j] =>
     let file := unhex hx
     let jn := junkOf j.toNat! hdrSize
-    let h := getHeader file jn
-    let v := chk h
-    let fixed := match getHeaderChecked file jn with
-      | none => "fatal"
-      | some h' => showHdr h' ++ " V ok"
-    (if v = .badVersion then "fatal badVersion" else showHdr h ++ " V " ++ showVerdict v)
-      ++ "\tv=" ++ showVerdict v ++ (if file.length < hdrSize then " shortfile" else " fullhdr")
-      ++ (if v = .ok then (if endOf h ≤ file.length then " inbounds" else " OUTOFBOUNDS") else "")
-      ++ "\t" ++ fixed
+    match getHeaderE file jn with
+    | .error r => "fatal " ++ showRefusal r ++ "\trefused=" ++ showRefusal r
+                    ++ (if file.length < hdrSize then " shortfile" else " fullhdr")
+    | .ok h => showHdr h ++ " V " ++ showVerdict (chk h) ++ "\taccepted"
+                    ++ (if endOf h = file.length then " exactfit" else " trailing")
   | ["S", hx, j, nm] =>
     let file := unhex hx
     let jn := junkOf j.toNat! hdrSize
-    let h := getHeader file jn
     let name := nm.toNat!
     if name ≥ hdrLimit then "bad-op" else
-    if chk h = .badVersion then "fatal badVersion\tbadVersion\tfatal" else
-    let (r, t) := showSect file h name j.toNat!
-    let fixed := match getHeaderChecked file jn with
-      | none => "fatal"
-      | some h' => (showSect file h' name j.toNat!).1
-    r ++ "\t" ++ t ++ "\t" ++ fixed
+    match getHeaderE file jn with
+    | .error r => "fatal " ++ showRefusal r ++ "\trefused=" ++ showRefusal r
+    | .ok h =>
+      let (r, t) := showSect file h name j.toNat!
+      r ++ "\t" ++ t
   | ["C", hx, n] =>
     -- truncation class of cutting the (intact) file at n
     let file := unhex hx
-    let h := getHeader file []
+    let h := readHeader file []
     showClass (truncClass h n.toNat!) ++ "\tcls"
   | _ => "bad-op"
 
 end AldorVerif.Driver.LibHdr
 
-namespace AldorVerif.Driver.Archive
-open AldorVerif.Archive
-
-def showName (n : List Nat) : String :=
-  if n.isEmpty then "''" else AldorVerif.Driver.LibHdr.hexOf n
-
-def line (toks : List String) : String :=
-  match toks with
-  | ["consts"] =>
-    "arhdr=" ++ toString memberHdrSize ++ " first=" ++ toString firstPos ++ " align=" ++ toString align
-      ++ " magic=" ++ AldorVerif.Driver.LibHdr.hexOf magicArch ++ "\tconsts"
-  | ["A", hx] =>
-    let file := AldorVerif.Driver.LibHdr.unhex hx
-    if !isArch file then "notarch\tnotarch" else
-    let (ms, o, nb) := walk (file.length + 2) file firstPos
-    let body := "members" ++ String.join (ms.map fun m => " " ++ showName m.name ++ "@" ++ toString m.dataPos)
-                  ++ " bad=" ++ toString nb
-    let tag := match o with
-      | .finished => "finished" | .shortHeader => "shortHeader" | .special => "special" | .outOfFuel => "LOOP"
-    body ++ "\t" ++ tag ++ " n=" ++ toString ms.length ++ (if nb > 0 then " badnum" else "")
-  | _ => "bad-op"
-
-end AldorVerif.Driver.Archive
